@@ -63,6 +63,10 @@ def configs(tier, seed):
         for sched in FIXED_SCHEDULES:
             for grid in ("unit", "step2"):
                 out.append(dict(h="fixed_concrete", op=kind + "fx", key=f"fixed_concrete/{kind}/{sched}/grid={grid}", kind=kind, sched=sched, grid=grid, n=6, extra={"r": 2}))
+    # the same on long time dimensions (linear obligations: the length costs little)
+    for kind in KINDS:
+        for n in ([33] if tier == "quick" else [17, 32, 33, 65]):
+            out.append(dict(h="fixed_concrete", op=kind + "fxlong", key=f"fixed_concrete/{kind}/zigzag/grid=unit/n={n}", kind=kind, sched="zigzag", grid="unit", n=n, extra={}))
     return out
 
 
@@ -156,7 +160,8 @@ def _fixed_concrete(cfg, w, check=None):
     y = [2000 + step * i for i in range(n)]
     dims = dsm.make_dims(y, cfg["extra"])
     shape = dims.shape
-    means = [m * step for m in FIXED_SCHEDULES[cfg["sched"]]]
+    sched = FIXED_SCHEDULES[cfg["sched"]]
+    means = [sched[i % len(sched)] * step for i in range(n)]  # (the schedule repeats on longer grids)
     mean = FlodymArray(dims=dims.get_subset(("t",)), values=np.array(means, dtype=float))
     lifetime = lm.FixedLifetime(dims=dims, mean=mean)
     drive = dict(inflow=w.arr("in", shape)) if kind == "idsm" else dict(stock=w.arr("st", shape))
